@@ -22,6 +22,7 @@ func c17(r *core.Report) {
 	c17Content(r)
 	c17Pure(r)
 	c17Servers(r)
+	scratchEscapes(r, "C17.fresh", 1, "openapi2conv")
 }
 
 // c17Counterparts: which source struct (other specification version) a target struct literal is a
@@ -1184,6 +1185,121 @@ func c17Servers(r *core.Report) {
 				}
 				return true
 			})
+		}
+	})
+}
+
+// scratchEscapes: a variable declared outside a loop that each iteration refills in place (resliced
+// to length zero, or handed by address to a call that decodes into it) and then stores, whole, into
+// a container that outlives the iteration. Every stored copy shares the variable's backing array
+// (or, for a value not overwritten this time, carries the previous iteration's content).
+func scratchEscapes(r *core.Report, rule string, floor int, rels ...string) {
+	p := r.Prog
+	r.RunRule(rule, "no reused scratch value is kept: inside a loop, a slice-, map- or type-parameter-typed variable declared outside the loop and refilled in place in the iteration (`v = v[:0]`, or `&v` passed to a call) is not stored whole into a map entry, a field, a slice element or an appended list — each stored value must be the iteration's own", floor, func() {
+		for _, rel := range rels {
+			pkg := p.PkgOpt(rel)
+			if pkg == nil {
+				continue
+			}
+			info := pkg.TypesInfo
+			loops := 0
+			defer func(rel string) {
+				if loops > 0 {
+					r.OK("fresh:"+rel+":loops", "-", fmt.Sprintf("%d loops examined in package %s", loops, rel))
+				}
+			}(rel)
+			for _, d := range p.AllDecls(rel) {
+				if d.Body == nil {
+					continue
+				}
+				k := 0
+				ast.Inspect(d.Body, func(nd ast.Node) bool {
+					var body *ast.BlockStmt
+					switch x := nd.(type) {
+					case *ast.RangeStmt:
+						body = x.Body
+					case *ast.ForStmt:
+						body = x.Body
+					}
+					if body == nil {
+						return true
+					}
+					loops++
+					outer := func(o types.Object) bool {
+						return o != nil && (o.Pos() < body.Pos() || o.Pos() > body.End())
+					}
+					aggregate := func(t types.Type) bool {
+						switch t.Underlying().(type) {
+						case *types.Slice, *types.Map:
+							return true
+						}
+						_, isTP := t.(*types.TypeParam)
+						return isTP
+					}
+					refilled := map[types.Object]string{}
+					stored := map[types.Object]ast.Node{}
+					ast.Inspect(body, func(m ast.Node) bool {
+						if _, isLit := m.(*ast.FuncLit); isLit {
+							return false
+						}
+						switch x := m.(type) {
+						case *ast.AssignStmt:
+							for i, l := range x.Lhs {
+								if i >= len(x.Rhs) {
+									break
+								}
+								// v = v[:0]
+								if lid, ok := ast.Unparen(l).(*ast.Ident); ok {
+									if se, ok := ast.Unparen(x.Rhs[i]).(*ast.SliceExpr); ok && se.Low == nil {
+										if sid, ok := ast.Unparen(se.X).(*ast.Ident); ok && info.ObjectOf(sid) == info.ObjectOf(lid) {
+											if z, ok := intConst(info, se.High); ok && z == 0 && outer(info.ObjectOf(lid)) {
+												refilled[info.ObjectOf(lid)] = "resliced to length 0 (" + core.ExprStr(l) + " = " + core.ExprStr(x.Rhs[i]) + ")"
+											}
+										}
+									}
+								}
+								// container[..] = v / x.F = v
+								if rid, ok := ast.Unparen(x.Rhs[i]).(*ast.Ident); ok {
+									o := info.ObjectOf(rid)
+									if v, isVar := o.(*types.Var); isVar && outer(o) && aggregate(v.Type()) {
+										switch ast.Unparen(l).(type) {
+										case *ast.IndexExpr, *ast.SelectorExpr:
+											stored[o] = x
+										}
+									}
+								}
+							}
+						case *ast.CallExpr:
+							for _, a := range x.Args {
+								if u, ok := ast.Unparen(a).(*ast.UnaryExpr); ok && u.Op == token.AND {
+									if id, ok := ast.Unparen(u.X).(*ast.Ident); ok {
+										o := info.ObjectOf(id)
+										if v, isVar := o.(*types.Var); isVar && outer(o) && aggregate(v.Type()) {
+											refilled[o] = "filled in place through &" + id.Name + " (" + core.ExprStr(x.Fun) + ")"
+										}
+									}
+								}
+							}
+						}
+						return true
+					})
+					var objs []types.Object
+					for o := range stored {
+						objs = append(objs, o)
+					}
+					sort.Slice(objs, func(i, j int) bool { return objs[i].Pos() < objs[j].Pos() })
+					for _, o := range objs {
+						k++
+						key := fmt.Sprintf("fresh:%s.%s/%s#%d", rel, core.FuncName(d), o.Name(), k)
+						if how, ok := refilled[o]; ok {
+							r.Bad(key, p.Pos(stored[o].Pos()), fmt.Sprintf("%s is declared outside the loop, %s in every iteration and stored whole at %s: the values stored in earlier iterations share its storage and are overwritten by later ones (or keep an earlier iteration's content)", o.Name(), how, core.ExprStr(stored[o].(*ast.AssignStmt).Lhs[0])))
+						} else {
+							r.OK(key, p.Pos(stored[o].Pos()), "stored variable is not refilled in place inside the loop")
+						}
+					}
+					return true
+				})
+			}
 		}
 	})
 }
